@@ -1,1 +1,63 @@
-(* C11 stub: to be written *)
+(* C11 -- Symbolic Sequence layer: chain-rule-exact derivatives, substitution, virtual-operator table.
+   Only statements, each closed by [exact], followed by Print Assumptions. *)
+From Coq Require Import List String ZArith QArith Reals Lra.
+From Coquelicot Require Import Coquelicot.
+From EPG Require Import SeqTables Expr ExprProofs.
+Import ListNotations.
+Local Open Scope R_scope.
+
+(* (0) the generated `math` table is exactly the set of modelled functions and every template resolves;
+       in every derivative template the k-th proxy present is Proxy k, so that
+       dict(zip(partial.proxies, self.arguments)) binds Proxy k to the k-th argument *)
+Theorem C11_tables_closed : tables_closed = true /\ proxies_ok = true.
+Proof. exact (conj tables_closed_lemma proxies_ok_lemma). Qed.
+Print Assumptions C11_tables_closed.
+
+(* (1) every entry of the generated derivative table is the partial derivative of its function *)
+Theorem C11_deriv_table_sound (f : fn) (i : nat) (T : expr) (args : list R) :
+  dtab f i = Some T -> List.length args = arity f -> entry_dom f i args ->
+  is_derive (fun u => fn_sem f (set_nth i u args)) (nth i args 0) (template_val T args).
+Proof. exact (deriv_table_sound_lemma f i T args). Qed.
+Print Assumptions C11_deriv_table_sound.
+
+(* (2) Expression.derive is the derivative, for every expression tree *)
+Theorem C11_derive_sound (v : string) (rho : string -> R) (e : expr) :
+  wd v rho e ->
+  is_derive (fun t => eval (upd rho v t) e) (rho v) (eval rho (derive v e)).
+Proof. exact (derive_sound_lemma v rho e). Qed.
+Print Assumptions C11_derive_sound.
+
+(* (3) substitution (Expression.map, VirtualOperator.map/__call__) commutes with evaluation *)
+Theorem C11_map_eval (rho : string -> R) (m : list (string * expr)) (e : expr) :
+  eval rho (subst m e) = eval (env_subst rho m) e.
+Proof. exact (map_eval_lemma rho m e). Qed.
+Print Assumptions C11_map_eval.
+
+(* (4) repeat(): repetition n evaluates like the original operators under the n-th mapping *)
+Theorem C11_repeat_spec (rho : string -> R) (ops : list (list expr)) (maps : list (list (string * expr))) :
+  map (map (map (eval rho))) (repeat_ops ops maps) =
+  map (fun m => map (map (eval (env_subst rho m))) ops) maps.
+Proof. exact (repeat_spec_lemma rho ops maps). Qed.
+Print Assumptions C11_repeat_spec.
+
+(* (5) virtual-operator table against the generated constructor signatures.  [vop_bad] is COMPUTED from
+       the generated tables (names of the entries whose class / positionals / keywords do not match);
+       on a correct table it is [] and (5a) is the full statement vop_table_ok. *)
+Theorem C11_vop_table_ok (v : vop_entry) :
+  In v vop_table -> ~ In (v_name v) vop_bad -> vop_binding_ok v = true.
+Proof. exact (vop_table_ok_lemma v). Qed.
+Print Assumptions C11_vop_table_ok.
+
+Theorem C11_vop_table_refuted (n : string) :
+  In n vop_bad -> exists v, In v vop_table /\ v_name v = n /\ vop_binding_ok v = false.
+Proof. exact (vop_table_refuted_lemma n). Qed.
+Print Assumptions C11_vop_table_refuted.
+
+(* non-vacuity: d/dx (x / (x*y)) at a point where it is well defined *)
+Example C11_example :
+  wd "x" (fun _ => 2) (App Fdiv [Var "x"; App Fmul [Var "x"; Var "y"]]).
+Proof.
+  simpl. repeat split; try discriminate;
+    try (intros [|[|i]] H; vm_compute in H |- *; (discriminate || (destruct i; discriminate H))).
+  unfold eval; cbn; lra.
+Qed.
